@@ -188,6 +188,9 @@ func (server *SugarDB) handleCommand(ctx context.Context, message []byte, conn *
 		}
 
 		if internal.IsWriteCommand(command, subCommand) && !replay {
+			// Every successful write command counts towards the snapshot threshold
+			// (deletions and expiry changes do not pass through setValues).
+			server.snapshotEngine.IncrementChangeCount()
 			server.connInfo.mut.RLock()
 			// Log under the database the command was executed in (TCP and embedded callers alike).
 			server.aofEngine.LogCommand(ctx.Value("Database").(int), message)
